@@ -15,7 +15,7 @@ from typing import Any, Dict, List, Set, Tuple
 
 import z3
 
-from checks.common import run_bounded, verifier
+from checks.common import encapsulation_obligations, run_bounded, verifier
 from pyvc import lists as L
 from pyvc.state import Frame, State
 from pyvc.values import (BuiltinV, ClassV, DictObj, Exc, FuncV, ListObj, Obj, Opaque, Ref, SV, Tup, Unsupported, mk_i,
@@ -231,4 +231,5 @@ def run(ctx: Ctx) -> None:
         "'cached graphs are unreachable from callers' is preserved by every call, hence holds after every history. "
         "BOUNDED: parse / edit / parse histories incl. eviction on the real parsers.")
     analyse(ctx)
+    encapsulation_obligations(ctx)
     run_bounded(ctx, "C11")
